@@ -4,10 +4,19 @@ from typing import Any
 from liquid import Markup
 from liquid import escape
 from liquid import soft_str
+from liquid.exceptions import LiquidValueError
 
 
 def to_liquid_string(val: Any, autoescape: bool) -> str:
     """Stringify a Python object ready for output in a Liquid template."""
+    try:
+        return _to_liquid_string(val, autoescape)
+    except ValueError as err:
+        # An integer with more digits than Python is willing to convert to a string.
+        raise LiquidValueError(str(err), token=None) from err
+
+
+def _to_liquid_string(val: Any, autoescape: bool) -> str:
     if isinstance(val, str) or (autoescape and hasattr(val, "__html__")):
         pass
     elif isinstance(val, bool):
